@@ -184,3 +184,31 @@ def run_recorded(case):
         if all(c[k] == case[k] for k in ("base", "chain", "position", "input")):
             return c["failure"]
     return None
+
+
+def string_reference_memo_witness():
+    """Known finding C11-string-reference-memoised-by-text: a bare string reference is resolved against the caller's module
+    but memoised on its text, so the same text issued from a second module gets the first module's type."""
+    import sys
+    import types
+    import typelib
+    src = ("import dataclasses, typelib\n@dataclasses.dataclass\nclass C11Point:\n    x: {T}\n"
+           "def run(v):\n    return typelib.unmarshal('C11Point', v)\n")
+    mods = []
+    try:
+        for name, T in (("c11_memo_a", "int"), ("c11_memo_b", "str")):
+            m = types.ModuleType(name)
+            sys.modules[name] = m
+            exec(compile(src.replace("{T}", T), name, "exec"), m.__dict__)
+            m.C11Point.__module__ = name
+            mods.append(m)
+        warnings.simplefilter("ignore")
+        a = mods[0].run({"x": "1"})
+        b = mods[1].run({"x": "1"})
+        if type(b) is not mods[1].C11Point:
+            return (f"unmarshal('C11Point', ...) issued from module c11_memo_b returned an instance of {type(b).__module__}.C11Point "
+                    f"({b!r}) after the same text had been resolved from module c11_memo_a ({a!r})")
+        return None
+    finally:
+        for name in ("c11_memo_a", "c11_memo_b"):
+            sys.modules.pop(name, None)
